@@ -301,6 +301,46 @@ def emit (o : Oracle) (s : St) (sec n : Nat) : Oracle × St × Err :=
                     c := { s.c with bufCap := s.c.bufCap.set sec cap' },
                     corrupt := s.corrupt || sc.size + n > cap' }, .ok)
 
+/-- the four plain x86 instructions the harness emits: `nop`, `mov eax, 0x11223344`, `ret`, `add rax, rcx` -/
+def instBytes : Nat → List Nat
+  | 0 => [0x90]
+  | 1 => [0xB8, 0x44, 0x33, 0x22, 0x11]
+  | 2 => [0xC3]
+  | _ => [0x48, 0x01, 0xC8]
+
+/-- `x86::Assembler::_emit` of a plain instruction into section `sec`: `writer.ensure_space(this, 16)` (-> `grow_buffer` ->
+`realloc/malloc`) first, then the encoded bytes, `writer.done()` -/
+def inst (o : Oracle) (s : St) (sec k : Nat) : Oracle × St × Err :=
+  match s.v.sections[sec]? with
+  | none => (o, s, .invalidSection)
+  | some sc =>
+    match ensureSpace o sc.size (s.c.bufCap.getD sec 0) 16 with
+    | (o1, _, false) => (o1, s, .oom)
+    | (o1, cap', true) =>
+      (o1, { s with v := { s.v with sections := s.v.sections.set sec { sc with data := sc.data ++ instBytes k } },
+                    c := { s.c with bufCap := s.c.bufCap.set sec cap' },
+                    corrupt := s.corrupt || sc.size + (instBytes k).length > cap' }, .ok)
+
+/-- `x86::Assembler::_emit` of `jmp L` with `L` not bound yet: `ensure_space(16)`, then at `EmitRel` `new_fixup` (a pooled
+record or one arena request; on failure nothing has been committed), then `E9 00 00 00 00` -/
+def jmpf (o : Oracle) (s : St) (sec : Nat) : Oracle × St × Err :=
+  match s.v.sections[sec]? with
+  | none => (o, s, .invalidSection)
+  | some sc =>
+    match ensureSpace o sc.size (s.c.bufCap.getD sec 0) 16 with
+    | (o1, _, false) => (o1, s, .oom)
+    | (o1, cap', true) =>
+      let s1 := { s with c := { s.c with bufCap := s.c.bufCap.set sec cap' } }
+      let fin (o' : Oracle) (pool' : Nat) : Oracle × St × Err :=
+        (o', { s1 with v := { s.v with sections := s.v.sections.set sec { sc with data := sc.data ++ [0xE9, 0, 0, 0, 0] },
+                                       fixups := s.v.fixups + 1 },
+                       c := { s1.c with pool := pool' },
+                       corrupt := s.corrupt || sc.size + 5 > cap' }, .ok)
+      if s.c.pool > 0 then fin o1 (s.c.pool - 1)
+      else match req o1 with
+        | (true, o2) => (o2, s1, .oom)
+        | (false, o2) => fin o2 s.c.pool
+
 /-- `ArenaVector<uint32_t>::append(arena, x)` -/
 def vappend (o : Oracle) (s : St) (x : Nat) : Oracle × St × Err :=
   match reserveAdd o s.v.vec.length s.c.vecCap 1 4 with
@@ -342,6 +382,8 @@ inductive Op where
   | freeFixup
   | addAddr (a : Nat)
   | emit (sec n : Nat)
+  | inst (sec k : Nat)
+  | jmpf (sec : Nat)
   | vappend (x : Nat)
   | vreserve (n : Nat)
   | sappend (n ch : Nat)
@@ -358,6 +400,8 @@ def step (op : Op) (o : Oracle) (s : St) : Oracle × St × Err :=
   | .freeFixup => freeFixup o s
   | .addAddr a => addAddr o s a
   | .emit sec n => emit o s sec n
+  | .inst sec k => inst o s sec k
+  | .jmpf sec => jmpf o s sec
   | .vappend x => vappend o s x
   | .vreserve n => vreserve o s n
   | .sappend n ch => sappend o s n ch
